@@ -2,7 +2,6 @@
 // The renderers zero_padded / zero_padded_i / alloc::fmt::format are replaced by recording stubs, so what is
 // decided is WHICH value is rendered at WHICH width in WHICH order - not the rendered characters.
 // Injected as `#[cfg(kani)] mod verif_harness_fmt;` at the crate root of a scratch copy of /repo.
-use crate::util::date::convert::{days_to_date, days_to_doy, days_to_wday, days_to_wyear};
 use crate::util::format::{format_date_part, format_time_part};
 use std::sync::atomic::{AtomicU64, AtomicUsize, Ordering::Relaxed};
 
@@ -42,30 +41,92 @@ fn w22(len: usize) -> usize {
     if len > 2 { 2 } else { len }
 }
 
+// time rows: the time of day is built from its fields (multiplications), so that the harness does not repeat the
+// divisions of nanos_to_time; every time of day below 24 h has exactly one such decomposition
 macro_rules! time_row {
-    ($name:ident, $pat:expr, |$n:ident, $off:ident| $check:expr) => {
+    ($name:ident, $pat:expr, |$h:ident, $m:ident, $s:ident| $check:expr) => {
         #[kani::proof]
         #[kani::unwind(4)]
         #[kani::stub(crate::util::format::zero_padded, zp_stub)]
         #[kani::stub(crate::util::format::zero_padded_i, zpi_stub)]
         #[kani::stub(alloc::fmt::format, fmt_stub)]
         fn $name() {
-            let $n: u64 = kani::any();
-            kani::assume($n < 86_400_000_000_000);
-            let $off: i32 = kani::any();
-            kani::assume($off > -86_400 && $off < 86_400);
-            let _ = format_time_part($pat, $n, $off);
+            let $h: u32 = kani::any();
+            let $m: u32 = kani::any();
+            let $s: u32 = kani::any();
+            let sub: u32 = kani::any();
+            kani::assume($h < 24 && $m < 60 && $s < 60 && sub < 1_000_000_000);
+            let n: u64 = (($h as u64 * 60 + $m as u64) * 60 + $s as u64) * 1_000_000_000 + sub as u64;
+            let off: i32 = kani::any();
+            kani::assume(off > -86_400 && off < 86_400);
+            let _ = format_time_part($pat, n, off);
             assert!($check);
         }
     };
 }
+// the calendar getters are replaced by their contracts' shape: arbitrary in-range values, remembered so that the
+// row assertion can say "the value rendered is the one the getter returned" (the getters themselves are C01/C02)
+static G_Y: AtomicU64 = AtomicU64::new(0);
+static G_M: AtomicU64 = AtomicU64::new(0);
+static G_D: AtomicU64 = AtomicU64::new(0);
+static G_DOY: AtomicU64 = AtomicU64::new(0);
+static G_WD: AtomicU64 = AtomicU64::new(0);
+static G_WDM: AtomicU64 = AtomicU64::new(0);
+static G_WY: AtomicU64 = AtomicU64::new(0);
+static G_INIT: AtomicUsize = AtomicUsize::new(0);
+fn getters_init() {
+    if G_INIT.load(Relaxed) == 0 {
+        let y: i32 = kani::any();
+        kani::assume(y != 0 && y >= -5_879_611 && y <= 5_879_611);
+        let m: u32 = kani::any();
+        kani::assume(m >= 1 && m <= 12);
+        let d: u32 = kani::any();
+        kani::assume(d >= 1 && d <= 31);
+        let doy: u32 = kani::any();
+        kani::assume(doy >= 1 && doy <= 366);
+        let wd: u32 = kani::any();
+        kani::assume(wd <= 6);
+        let wy: u32 = kani::any();
+        kani::assume(wy >= 1 && wy <= 53);
+        G_Y.store(y as i64 as u64, Relaxed);
+        G_M.store(m as u64, Relaxed);
+        G_D.store(d as u64, Relaxed);
+        G_DOY.store(doy as u64, Relaxed);
+        G_WD.store(wd as u64, Relaxed);
+        G_WDM.store(((wd + 6) % 7) as u64, Relaxed);
+        G_WY.store(wy as u64, Relaxed);
+        G_INIT.store(1, Relaxed);
+    }
+}
+fn d2d_stub(_days: i32) -> (i32, u32, u32) {
+    getters_init();
+    (G_Y.load(Relaxed) as i64 as i32, G_M.load(Relaxed) as u32, G_D.load(Relaxed) as u32)
+}
+fn doy_stub(_days: i32) -> u32 { getters_init(); G_DOY.load(Relaxed) as u32 }
+fn wday_stub(_days: i32, monday_first: bool) -> u32 {
+    getters_init();
+    if monday_first { G_WDM.load(Relaxed) as u32 } else { G_WD.load(Relaxed) as u32 }
+}
+fn wyear_stub(_days: i32) -> u32 { getters_init(); G_WY.load(Relaxed) as u32 }
+fn gy() -> i32 { getters_init(); G_Y.load(Relaxed) as i64 as i32 }
+fn gm() -> u32 { getters_init(); G_M.load(Relaxed) as u32 }
+fn gd() -> u32 { getters_init(); G_D.load(Relaxed) as u32 }
+fn gdoy() -> u32 { getters_init(); G_DOY.load(Relaxed) as u32 }
+fn gwd() -> u32 { getters_init(); G_WD.load(Relaxed) as u32 }
+fn gwdm() -> u32 { getters_init(); G_WDM.load(Relaxed) as u32 }
+fn gwy() -> u32 { getters_init(); G_WY.load(Relaxed) as u32 }
+
 macro_rules! date_row {
     ($name:ident, $pat:expr, |$d:ident| $check:expr) => {
         #[kani::proof]
-        #[kani::unwind(14)]
+        #[kani::unwind(4)]
         #[kani::stub(crate::util::format::zero_padded, zp_stub)]
         #[kani::stub(crate::util::format::zero_padded_i, zpi_stub)]
         #[kani::stub(alloc::fmt::format, fmt_stub)]
+        #[kani::stub(crate::util::date::convert::days_to_date, d2d_stub)]
+        #[kani::stub(crate::util::date::convert::days_to_doy, doy_stub)]
+        #[kani::stub(crate::util::date::convert::days_to_wday, wday_stub)]
+        #[kani::stub(crate::util::date::convert::days_to_wyear, wyear_stub)]
         fn $name() {
             let $d: i32 = kani::any();
             let _ = format_date_part($pat, $d);
@@ -74,11 +135,36 @@ macro_rules! date_row {
     };
 }
 
-fn hour(n: u64) -> u32 { (n / 3_600_000_000_000) as u32 }
-fn minute(n: u64) -> u32 { (n / 60_000_000_000 % 60) as u32 }
-fn second(n: u64) -> u32 { (n / 1_000_000_000 % 60) as u32 }
-fn h12(n: u64) -> u32 { if hour(n) % 12 == 0 { 12 } else { hour(n) % 12 } }
-fn k24(n: u64) -> u32 { if hour(n) == 0 { 24 } else { hour(n) } }
-fn sub(n: u64, digits: u32) -> u32 { ((n % 1_000_000_000) as u32) / 10u32.pow(9 - digits) }
+// zone rows: which of hour / minute / second of |offset| are rendered (each at width 2) and in which order
+fn rec(i: usize) -> u64 { match i { 0 => LOG0.load(Relaxed), 1 => LOG1.load(Relaxed), _ => LOG2.load(Relaxed) } }
+fn enc(value: u32, width: usize) -> u64 { ((value as u64) << 8) | width as u64 }
+macro_rules! zone_row {
+    ($name:ident, $pat:expr, $with_z:expr, $shape:expr) => {
+        #[kani::proof]
+        #[kani::unwind(4)]
+        #[kani::stub(crate::util::format::zero_padded, zp_stub)]
+        #[kani::stub(crate::util::format::zero_padded_i, zpi_stub)]
+        #[kani::stub(alloc::fmt::format, fmt_stub)]
+        fn $name() {
+            let off: i32 = kani::any();
+            kani::assume(off > -86_400 && off < 86_400);
+            let _ = format_time_part($pat, 0, off);
+            let a = off.unsigned_abs();
+            let (h, m, s) = (a / 3600, a % 3600 / 60, a % 60);
+            let n = LOGN.load(Relaxed);
+            if $with_z && off == 0 {
+                assert!(n == 0);
+            } else {
+                // shape 1: hour [minute if != 0]; 2: hour minute; 4/5: hour minute [second if != 0]
+                assert!(rec(0) == enc(h, 2));
+                match $shape {
+                    1 => assert!(if m != 0 { n == 2 && rec(1) == enc(m, 2) } else { n == 1 }),
+                    2 => assert!(n == 2 && rec(1) == enc(m, 2)),
+                    _ => assert!(rec(1) == enc(m, 2) && if s != 0 { n == 3 && rec(2) == enc(s, 2) } else { n == 2 }),
+                }
+            }
+        }
+    };
+}
 
 include!("harness_fmt_rows.rs");
